@@ -36,6 +36,8 @@ func (s schedSpec) String() string {
 		return fmt.Sprintf("@every %ds", s.Period)
 	case "localmin":
 		return fmt.Sprintf("localminute%%%d", s.Period)
+	case "specmin":
+		return fmt.Sprintf("AddFunc(0 */%d * * * *)", s.Period)
 	case "spec":
 		return fmt.Sprintf("*/%d * * * * *", s.Period)
 	default:
@@ -96,7 +98,7 @@ func refNext(s schedSpec, t time.Time) time.Time {
 		return periodic{time.Duration(s.Period) * time.Second, time.Duration(s.Phase) * time.Second}.Next(t)
 	case "every":
 		return t.Truncate(time.Second).Add(time.Duration(s.Period) * time.Second)
-	case "localmin":
+	case "localmin", "specmin":
 		return localMin{s.Period}.Next(t.In(cronLoc))
 	case "spec":
 		// seconds divisible by Period (Period divides 60), on the UTC wall clock
@@ -110,8 +112,23 @@ func refNext(s schedSpec, t time.Time) time.Time {
 	}
 }
 
+// specText is the textual form of the kinds that have one (six-field parser with descriptors).
+func specText(s schedSpec) string {
+	switch s.Kind {
+	case "every":
+		return fmt.Sprintf("@every %ds", s.Period)
+	case "spec":
+		return fmt.Sprintf("*/%d * * * * *", s.Period)
+	case "specmin":
+		return fmt.Sprintf("0 */%d * * * *", s.Period)
+	}
+	return ""
+}
+
 func mkSchedule(s schedSpec) (cron.Schedule, error) {
 	switch s.Kind {
+	case "specmin":
+		return localMin{s.Period}, nil // (not used: added through AddFunc/AddJob)
 	case "periodic":
 		return periodic{time.Duration(s.Period) * time.Second, time.Duration(s.Phase) * time.Second}, nil
 	case "every":
@@ -126,12 +143,13 @@ func mkSchedule(s schedSpec) (cron.Schedule, error) {
 }
 
 type op struct {
-	Kind  string // add remove entries start stop step release
-	Sched schedSpec
-	Block bool   // add: the job blocks until released
-	I     int    // remove/release: entry index
-	Step  string // next | next-1ns | half | jump2 | jump5 | 1s | 7s
-	Run   bool   // start: through the blocking Run() (on a goroutine of its own) instead of Start()
+	Kind    string // add remove entries start stop step release
+	Sched   schedSpec
+	Block   bool   // add: the job blocks until released
+	I       int    // remove/release: entry index
+	Step    string // next | next-1ns | half | jump2 | jump5 | 1s | 7s
+	ViaSpec bool   // add: through AddFunc/AddJob with the spec text (kinds every, spec)
+	Run     bool   // start: through the blocking Run() (on a goroutine of its own) instead of Start()
 }
 
 type cronCase struct {
@@ -143,6 +161,9 @@ type cronCase struct {
 func opStr(o op) string {
 	switch o.Kind {
 	case "add":
+		if o.ViaSpec && specText(o.Sched) != "" {
+			return fmt.Sprintf("add(text %q,block=%v)", specText(o.Sched), o.Block)
+		}
 		return fmt.Sprintf("add(%s,block=%v)", o.Sched, o.Block)
 	case "remove", "release":
 		return fmt.Sprintf("%s(e%d)", o.Kind, o.I)
@@ -184,7 +205,7 @@ type start struct {
 }
 
 type outcome struct {
-	stopRacedWake, viaRun                                             bool
+	stopRacedWake, viaRun, viaSpec                                    bool
 	starts                                                            int
 	addWhileRunning, removeWhileRunning, jump, blockedAtStop, restart bool
 	racedInstant                                                      bool // an API call was issued at the very instant an activation was due
@@ -216,7 +237,7 @@ func runCron(t *testing.T, c cronCase) (out outcome, err error) {
 		if c.LocOffMin != 0 {
 			cronLoc = time.FixedZone(fmt.Sprintf("UTC%+dm", c.LocOffMin), c.LocOffMin*60)
 		}
-		cr := cron.New(cron.WithClock(clk), cron.WithLocation(cronLoc), cron.WithLogger(quietLogger{}))
+		cr := cron.New(cron.WithClock(clk), cron.WithLocation(cronLoc), cron.WithLogger(quietLogger{}), cron.WithSeconds())
 		var mu sync.Mutex
 		var got []start
 		var entries []*mentry
@@ -350,7 +371,22 @@ func runCron(t *testing.T, c cronCase) (out outcome, err error) {
 						<-e.gate
 					}
 				})
-				e.id = cr.Schedule(sch, job)
+				if txt := specText(o.Sched); txt != "" && (o.ViaSpec || o.Sched.Kind == "specmin") {
+					// through the textual entry points: the spec is parsed with the Cron's parser and location
+					var aerr error
+					if e.idx%2 == 0 {
+						e.id, aerr = cr.AddFunc(txt, job)
+					} else {
+						e.id, aerr = cr.AddJob(txt, job)
+					}
+					if aerr != nil {
+						errs.Failf("after %s: AddFunc/AddJob(%q) failed: %v", step, txt, aerr)
+						return
+					}
+					out.viaSpec = true
+				} else {
+					e.id = cr.Schedule(sch, job)
+				}
 				if running {
 					e.next = refNext(o.Sched, nowf())
 					out.addWhileRunning = true
@@ -533,7 +569,7 @@ func genSched(rt *rapid.T) schedSpec {
 		return schedSpec{Kind: "spec", Period: rapid.SampledFrom([]int{1, 2, 3, 4, 5, 6, 10, 15, 20, 30}).Draw(rt, "period")}
 	default:
 		if rapid.Bool().Draw(rt, "localmin") {
-			return schedSpec{Kind: "localmin", Period: rapid.SampledFrom([]int{7, 20, 45}).Draw(rt, "m")}
+			return schedSpec{Kind: rapid.SampledFrom([]string{"localmin", "specmin"}).Draw(rt, "minKind"), Period: rapid.SampledFrom([]int{7, 20, 45}).Draw(rt, "m")}
 		}
 		return schedSpec{Kind: "oneshot", Phase: rapid.IntRange(0, 40).Draw(rt, "at")}
 	}
@@ -546,7 +582,7 @@ func genCase(rt *rapid.T) cronCase {
 	for i := 0; i < n; i++ {
 		switch k := rapid.IntRange(0, 19).Draw(rt, "kind"); {
 		case k <= 4:
-			c.Ops = append(c.Ops, op{Kind: "add", Sched: genSched(rt), Block: rapid.IntRange(0, 4).Draw(rt, "block") == 0})
+			c.Ops = append(c.Ops, op{Kind: "add", Sched: genSched(rt), Block: rapid.IntRange(0, 4).Draw(rt, "block") == 0, ViaSpec: rapid.Bool().Draw(rt, "viaSpec")})
 		case k <= 6:
 			c.Ops = append(c.Ops, op{Kind: "remove", I: rapid.IntRange(0, 5).Draw(rt, "i")})
 		case k <= 8:
@@ -567,7 +603,7 @@ func genCase(rt *rapid.T) cronCase {
 func record(sec *vk.Section, c cronCase, out outcome) {
 	var cls []string
 	for name, b := range map[string]bool{"add-while-running": out.addWhileRunning, "remove-while-running": out.removeWhileRunning, "jump-over-several-activations": out.jump,
-		"blocked-job-at-stop": out.blockedAtStop, "restart": out.restart, "started-through-Run": out.viaRun, "api-call-at-activation-instant": out.racedInstant, "stop-racing-a-wake-up": out.stopRacedWake} {
+		"blocked-job-at-stop": out.blockedAtStop, "restart": out.restart, "started-through-Run": out.viaRun, "added-through-AddFunc/AddJob": out.viaSpec, "api-call-at-activation-instant": out.racedInstant, "stop-racing-a-wake-up": out.stopRacedWake} {
 		if b {
 			cls = append(cls, name)
 		}
